@@ -481,6 +481,7 @@ func init() {
 		c.Group("C13/ownership", "the served maps and index are written only by the configuration's own methods, the patch commit and the loaders", func() { ruleRuleConfigOwnership(c) })
 		c.Group("C13/validity", "every segment is validated on the rule set that will apply (after override): non-empty, one leader at most, at least one voter or leader", func() { ruleValidityAtoms(c) })
 		c.Group("C13/index-identity", "the sweep building the key-range index drops a rule from the active set by its full (group id, id) key", func() { ruleSortedRulesIdentity(c); ruleRangeRulesOwnSlice(c) })
+		c.Group("C13/key-format", "(shared with C17) rules and rule groups are saved, loaded and deleted under one path prefix each", func() { ruleKeyFamilies(c) })
 		c.Group("C13/borrowed-immutable", "rules handed out by the manager are never edited in place", func() { ruleBorrowedImmutable(c) })
 		c.Group("C13/load-and-save-keys", "rules are saved under their canonical key, mis-keyed entries are repaired at load, write errors abort", func() { ruleLoadRepair(c); ruleInitializeOrder(c); ruleFreshManagerPerTerm(c) })
 	})
